@@ -1,6 +1,7 @@
 package probe
 
 import (
+	"fmt"
 	"regexp"
 	"testing"
 
@@ -10,7 +11,7 @@ import (
 // R-CTXDROP (b): a search that starts at the end of a non-empty haystack is answered with the bytes before
 // the position as context (fix 6e116d7; before it ^, (?m)^ and \B held at the end of "abc", \b did not).
 func TestProbeLazyDFAAtEndKeepsContext(t *testing.T) {
-	for _, pat := range []string{`^`, `(?m)^`, `\B`, `\b`, `$`, `(?m)$`, `x*`} {
+	for _, pat := range []string{`^`, `(?m)^`, `\B`, `\b`, `$`, `(?m)$`, `x*`, `\B$`, `\b$`, `(?m)^$`, `a*\b`, `(?:\b|^)`, `^$`, `(?:\B|c)`, `c?\b`} {
 		for _, hs := range []string{"abc", "ab ", "ab\n", ""} {
 			d, err := lazy.CompilePattern(pat)
 			if err != nil {
@@ -18,11 +19,11 @@ func TestProbeLazyDFAAtEndKeepsContext(t *testing.T) {
 			}
 			h := []byte(hs)
 			at := len(h)
+			// an empty match at the end exists iff the whole haystack followed by the pattern matches up to \z
+			// (FindAllIndex is no oracle here: it drops an empty match adjacent to the previous match)
 			want := -1
-			for _, m := range regexp.MustCompile(pat).FindAllIndex(h, -1) {
-				if m[0] == at {
-					want = m[1]
-				}
+			if regexp.MustCompile(fmt.Sprintf(`(?s)\A.{%d}(?:%s)\z`, at, pat)).Match(h) {
+				want = at
 			}
 			cache := d.NewCache()
 			if got := d.FindAt(cache, h, at); got != want {
